@@ -248,4 +248,14 @@ def tocOKList : List Tree → Bool
   | k :: ks => ((filesOf k).isEmpty || (isSub k && hasFile k && tocOK k)) && tocOKList ks
 end
 
+/- levels nest: no node has a lower level than its parent (sections absorb everything until an item of
+   their own or a higher rank; environments and paragraphs live below sections) -/
+mutual
+def nests : Tree → Bool
+  | .node lv _ _ _ kids => nestsList lv kids
+def nestsList (lv : Int) : List Tree → Bool
+  | [] => true
+  | k :: ks => decide (lv ≤ k.level) && nests k && nestsList lv ks
+end
+
 end PlasVerif.Model.Urls
